@@ -40,7 +40,8 @@ impl Subset for Gvar<'_> {
                 {
                     return None;
                 }
-                self.data_for_gid(x.0)
+                // x is (new gid, old gid): the data is looked up by the old glyph id
+                self.data_for_gid(x.1)
                     .ok()
                     .flatten()
                     .map(|data| data.len() as u32)
